@@ -73,17 +73,43 @@ func inlinedBytesVerified(c *Ctx) {
 	b = NewBase(Hooks{
 		PostCond: func(x *Exec, cond ast.Expr, truth bool, outs []St) []St {
 			be, ok := ast.Unparen(cond).(*ast.BinaryExpr)
-			if !ok || be.Op != token.GTR {
+			if !ok {
 				return outs
 			}
-			if k, isC := constInt(x.Fn.Info, be.Y); !isC || k != 0 {
+			// len(F) > 0, 0 < len(F), len(F) != 0 hold / len(F) == 0 fails: F is not empty
+			lenSide, zeroSide := be.X, be.Y
+			op := be.Op
+			if k, isC := constInt(x.Fn.Info, be.X); isC && k == 0 {
+				lenSide, zeroSide = be.Y, be.X
+				if op == token.LSS {
+					op = token.GTR
+				}
+			}
+			if k, isC := constInt(x.Fn.Info, zeroSide); !isC || k != 0 {
 				return outs
 			}
-			call, ok := ast.Unparen(be.X).(*ast.CallExpr)
-			if !ok || exprStr(call.Fun) != "len" || len(call.Args) != 1 || !fields[selName(call.Args[0])] {
+			switch {
+			case op == token.GTR || op == token.NEQ:
+			case op == token.EQL:
+				truth = !truth
+			default:
+				return outs
+			}
+			call, ok := ast.Unparen(lenSide).(*ast.CallExpr)
+			if !ok || exprStr(call.Fun) != "len" || len(call.Args) != 1 || len(outs) == 0 {
 				return outs
 			}
 			f := selName(call.Args[0])
+			if !fields[f] {
+				if t, ok := b.Term(x, call.Args[0], outs[0]); ok {
+					if i := strings.LastIndex(t, "."); i >= 0 {
+						f = t[i+1:]
+					}
+				}
+			}
+			if !fields[f] {
+				return outs
+			}
 			for i := range outs {
 				if truth {
 					outs[i] = outs[i].Set("need:"+f, "1")
@@ -117,7 +143,16 @@ func inlinedBytesVerified(c *Ctx) {
 				return []St{s}
 			}
 			if rd, ok := ast.Unparen(call.Args[4]).(*ast.CallExpr); ok && fullCalleeName(x.Fn.Info, rd) == "bytes.NewReader" && len(rd.Args) == 1 {
-				if f := selName(rd.Args[0]); fields[f] {
+				f := selName(rd.Args[0])
+				if !fields[f] {
+					// inside a helper the bytes are a parameter: resolve it to the caller's expression
+					if t, ok := b.Term(x, rd.Args[0], s); ok {
+						if i := strings.LastIndex(t, "."); i >= 0 {
+							f = t[i+1:]
+						}
+					}
+				}
+				if fields[f] {
 					s = s.Set("done:"+f, "1")
 				}
 			}
@@ -125,6 +160,7 @@ func inlinedBytesVerified(c *Ctx) {
 		},
 	})
 	b.H.Call = errFork(b)
+	b.InlineOwnHelpers()
 	x := NewExec(c.P.FlowOf(fi), b)
 	x.Run(newSt())
 	for f := range fields {
